@@ -8,7 +8,7 @@ export GOFLAGS=-mod=mod GOPROXY=off GOSUMDB=off GOTOOLCHAIN=local
 W=$(mktemp -d /tmp/evalseed.XXXXXX)
 git -C /repo worktree add -q --detach "$W/r" HEAD || exit 2
 cd "$W/r"
-git apply "$SD/patch.diff" || { echo "PATCH-DOES-NOT-APPLY"; cd /; git -C /repo worktree remove --force "$W/r"; rm -rf "$W"; exit 2; }
+git apply "$( [ -f "$SD/patch_rebased.diff" ] && echo "$SD/patch_rebased.diff" || echo "$SD/patch.diff")" || { echo "PATCH-DOES-NOT-APPLY"; cd /; git -C /repo worktree remove --force "$W/r"; rm -rf "$W"; exit 2; }
 echo "== existing tests with the change"
 go test -vet=off -count=1 ./... 2>&1 | grep -v "no test files" | grep -v "^ok" | head -5
 echo "tests-exit=${PIPESTATUS[0]}"
@@ -20,11 +20,11 @@ if [ -n "$DEST" ]; then
   RACE=""; grep -qi "\-race" "$SD/notes.md" 2>/dev/null && [ "$ID" = "C17" ] && RACE="-race"
   echo "== demo with the change ($PKG $RACE)"
   go test -vet=off -count=1 $RACE -run 'Demo|demo|Seed|C[0-9][0-9]' "$PKG" 2>&1 | tail -4
-  git apply -R "$SD/patch.diff"
+  git apply -R "$( [ -f "$SD/patch_rebased.diff" ] && echo "$SD/patch_rebased.diff" || echo "$SD/patch.diff")"
   echo "== demo without the change"
   go test -vet=off -count=1 $RACE -run 'Demo|demo|Seed|C[0-9][0-9]' "$PKG" 2>&1 | tail -3
   rm -f "$DEST"
-  git apply "$SD/patch.diff"
+  git apply "$( [ -f "$SD/patch_rebased.diff" ] && echo "$SD/patch_rebased.diff" || echo "$SD/patch.diff")"
 fi
 echo "== check $ID against the change"
 cd /verif && timeout 3000 bin/gclverify check --property "$ID" --repo "$W/r" --no-evidence 2>&1 | sed 's/model=map\[[^]]*\]//' | grep -E "^SUMMARY|^VIOLATION|^INCONCLUSIVE|violation:|^KNOWN" | cut -c1-400 | head -12
